@@ -29,8 +29,19 @@ def main():
         body = json.loads(Path(a.replay).read_text())
         lean.build_driver()
         if not hasattr(mod, "replay"):
-            print("no replay function for", pid)
-            return 2
+            # generic replay: the checks are deterministic in (seed, tier), so re-run the stream that produced
+            # the replay and look for the recorded violation again
+            ctx = common.Ctx(pid, body.get("tier", "quick"), int(body.get("seed", 0)), lean)
+            mod.run(ctx)
+            if not ctx.violations and body.get("kind") == "failing-input" and hasattr(mod, "search"):
+                mod.search(ctx)
+            same = [v for v in ctx.violations if v["what"] == body.get("what")]
+            for v in (same or ctx.violations)[:5]:
+                print("  ", v["what"][:300])
+            ok = not ctx.violations
+            print("replay:", "no violation on this stream any more" if ok else
+                  ("the recorded violation reproduces" if same else "the stream still violates the property (different first case)"))
+            return 0 if ok else 1
         ok = mod.replay(ctx, body)
         print("replay:", "property holds on this input" if ok else "property FAILS on this input")
         return 0 if ok else 1
